@@ -138,9 +138,10 @@ func shapeBlocked(be string) rl.Case {
 		Sched:   cat(rep(0, 2), rep(1, 1), rep(2, 1), rep(0, 3))}
 }
 func shapeVisible(be string) rl.Case {
-	return rl.Case{Kind: "sched", Class: "visible", Cfg: rl.Config{Backend: be}, Disk: smallDisk(0, 1, 2), P0: 0,
-		Threads: []rl.ThreadSpec{mx(1), full(1), mx(1), full(2), mx(1), q(2, "geo.example.com.", 1, ipLoc2)},
-		Sched:   cat(rep(0, 4), rep(1, 5), rep(2, 8), rep(0, 4), rep(3, 5), rep(4, 8), rep(5, 8))}
+	// switch to p1, then back to the meanwhile updated p0
+	return rl.Case{Kind: "sched", Class: "visible", Cfg: rl.Config{Backend: be}, Disk: smallDisk(0, 1), P0: 0,
+		Threads: []rl.ThreadSpec{mx(1), full(1), mx(1), env(0, gen(5)), full(0), mx(1), q(2, "geo.example.com.", 1, ipLoc2)},
+		Sched:   cat(rep(0, 4), rep(1, 5), rep(2, 8), rep(0, 4), rep(3, 1), rep(4, 5), rep(5, 8), rep(6, 8))}
 }
 
 // ---------------------------------------------------------------- random schedules
@@ -173,6 +174,9 @@ func randomCase(r *hlib.Rng, be string, nq, nr int, cache bool) rl.Case {
 		switch r.Pick([]int{4, 4, 1, 1, 1}) {
 		case 0: // full switch to a good generation
 			p := 1 + r.Intn(2)
+			if rocks {
+				p = 1
+			}
 			used[p] = true
 			c.Threads = append(c.Threads, full(p))
 		case 1: // partial, usually after an update of some path
@@ -186,8 +190,8 @@ func randomCase(r *hlib.Rng, be string, nq, nr int, cache bool) rl.Case {
 				}
 				c.Threads = append(c.Threads, partial())
 			} else {
-				c.Threads = append(c.Threads, full(2))
-				used[2] = true
+				c.Threads = append(c.Threads, full(1))
+				used[1] = true
 			}
 		case 2:
 			c.Threads = append(c.Threads, full(7)) // missing
